@@ -118,8 +118,8 @@ func (r *Router) GetRule(db, table string) Rule {
 	}
 	rule := r.rules[db][table]
 	if rule == nil {
-		//set the database of default rule
-		r.defaultRule.(*BaseRule).db = db
+		// the default rule is shared by every session of the namespace: it must
+		// not be written here (its db is never read: it has no sub tables)
 		return r.defaultRule
 	} else {
 		return rule
